@@ -9,6 +9,8 @@
 # for a project holding the whole grid of ways in which configuration creates a file in the build directory and names it
 # again (lib/verif/c06lib.py); run outside /dev, because meson treats any path starting with '/dev/' as a device.
 # Machine-file family: --native-file / --cross-file given as a regular file or through a pipe.
+# Earlier-revision family: a build directory first configured from an earlier revision of the project (one elementary
+# edit of the option declarations or of the dependency / target statements away), then from the present one, against fresh.
 import glob, hashlib, itertools, json, os, shutil, sys
 from verif.core import Check, pmap, run_main, scratch_root, REPO, NCPU
 from verif import projgen as pg
@@ -142,7 +144,7 @@ def explore(job):
     from verif import mesonproc as mp
     name, files, srcdir, seeds, setup_args, full = job['name'], job.get('files'), job.get('srcdir'), job['seeds'], tuple(job.get('setup_args', ())), job.get('full', True)
     placement, matrix, owned, disk = job.get('placement', 'sibling'), job.get('matrix', True), job.get('owned'), job.get('disk', False)
-    res = {'name': name, 'setups': 0, 'viol': [], 'files': 0, 'skip': None, 'compared': 0, 'orders_seen': 0, 'placement': placement,
+    res = {'name': name, 'setups': 0, 'viol': [], 'files': 0, 'skip': None, 'compared': 0, 'orders_seen': 0, 'placement': placement, 'depmf': 0,
            'stale_dirs': 0, 'stale_compared': 0, 'stale_skipped': 0, 'place_compared': 0, 'configure_outputs': 0}
     root = os.path.join(disk_base() if disk else scratch_root(), ('verif-c06.%d' if disk else 'c06.%d') % os.getpid())
     shutil.rmtree(root, ignore_errors=True)
@@ -184,6 +186,7 @@ def explore(job):
         F0 = fingerprint(bdir)
         res['files'] = len(F0)
         res['configure_outputs'] = sum(1 for rel in F0 if fclass(rel) == 'configure-output')
+        res['depmf'] = sum(1 for rel in F0 if fclass(rel) == 'depmf')
 
         def compare(F, what, dim, stale=()):
             res['compared'] += 1
@@ -215,7 +218,7 @@ def explore(job):
                 elif after_f.get(rel) != h:
                     if rel != 'build.ninja':
                         res['viol'].append(('C06:noop-reconfigure-changes:%s' % cls, '%s: %s content changed by a no-op reconfigure%s' % (name, rel, first_diff(h, after_f.get(rel))), dict(rep, file=rel)))
-                elif cls in ('configure-output', 'pkgconfig') and before_s.get(rel) != after_s.get(rel) and files is not None and (owned is None or rel in owned):
+                elif cls in ('configure-output', 'pkgconfig', 'depmf') and before_s.get(rel) != after_s.get(rel) and files is not None and (owned is None or rel in owned):
                     # (corpus projects may run their own configure-time commands that rewrite files: only outputs that
                     # meson itself writes -- all of them in the projgen / hand-written projects, the `owned` ones of the
                     # build-dir-io project -- are held to the mtime clause)
@@ -413,6 +416,74 @@ def explore_machine_files(job):
     return res
 
 
+def explore_revisions(job):
+    """Earlier-revision histories (c06lib): the build directory was configured from an earlier revision of the project (one
+    elementary edit of the option declarations / of the statements away; thorough: two earlier revisions), then
+    reconfigured from the present one: every generated text file must equal what a fresh directory at the same path gets."""
+    from verif import mesonproc as mp
+    name, lang, which, seeds = job['name'], job['lang'], job['which'], job['seeds']
+    res = {'name': name, 'setups': 0, 'viol': [], 'files': 0, 'skip': None, 'compared': 0, 'placement': 'sibling', 'stale_dirs': 0,
+           'rev_histories': 0, 'rev_compared': 0, 'rev_skipped': 0, 'rev_order_changing': 0, 'rev_kinds': []}
+    root = os.path.join(scratch_root(), 'c06.%d' % os.getpid())
+    shutil.rmtree(root, ignore_errors=True)
+    src, bdir = place(root, 'sibling')
+    base_env = mp.base_env(home=os.path.join(root, 'home'), PKG_CONFIG_PATH=os.path.join(src, 'pc'))
+    present = c6.rev_present(lang)
+    extra = c6.rev_extra(lang, which)
+    srv = mp.Server(hashseed=seeds[0])
+
+    def configure(lists, fresh):
+        shutil.rmtree(src, ignore_errors=True)
+        mp.write_tree(src, c6.rev_project(lang, lists))
+        if fresh:
+            shutil.rmtree(bdir, ignore_errors=True)
+        res['setups'] += 1
+        return srv.run(['setup'] + ([] if fresh else ['--reconfigure']) + [bdir, src], root, env=base_env, timeout=120)
+    try:
+        r0 = configure(present, True)
+        if r0.rc != 0:
+            res['skip'] = 'the present revision does not configure: ' + r0.out[-300:]
+            return res
+        F0 = fingerprint(bdir)
+        res['files'] = len(F0)
+        for hist in job['histories']:
+            hist = [tuple(e) for e in hist]
+            res['rev_histories'] += 1
+            rep = {'project': name, 'revisions': True, 'lang': lang, 'which': which, 'histories': [[list(e) for e in hist]]}
+            what = 'history: configured from an earlier revision (%s: %s), then reconfigured from the present one' % (
+                which, ' then '.join('%s@%d' % e for e in reversed(hist)))
+            ok = True
+            for n, e in enumerate(reversed(hist)):        # oldest revision first
+                r = configure(dict(present, **{which: c6.rev_apply(present[which], e, extra)}), n == 0)
+                if r.rc != 0:
+                    ok = False
+                    break
+            if not ok:
+                res['rev_skipped'] += 1                   # an earlier revision that is not a valid project: no history
+                continue
+            r = configure(present, False)
+            kind = c6.rev_edited_kind(present[which], hist[0], extra, which)
+            tag = '%s-%s' % (kind, hist[0][0])
+            if r.rc != 0:
+                res['viol'].append(('C06:reconfigure-fails:earlier-revision:' + tag, '%s: reconfigure fails (%s): %s' % (name, what, r.out[-300:]), rep))
+                continue
+            if tag not in res['rev_kinds']:
+                res['rev_kinds'].append(tag)
+            if any(e[0] != 'delete' and e != ('insert', len(present[which]) - 1) for e in hist):
+                res['rev_order_changing'] += 1            # order of first appearance differs from the present order of declaration
+            F = fingerprint(bdir)
+            res['rev_compared'] += 1
+            res['compared'] += 1
+            for rel in sorted(set(F0) | set(F)):
+                if F0.get(rel) != F.get(rel):
+                    res['viol'].append(('C06:differs:%s:earlier-revision:%s' % (fclass(rel), tag),
+                                        '%s: %s differs from a fresh configuration of the same sources (%s)%s' % (name, rel, what, first_diff(F0.get(rel), F.get(rel))), dict(rep, file=rel)))
+    finally:
+        srv.close()
+        shutil.rmtree(root, ignore_errors=True)
+    return res
+
+
 def cells_in_difference(a, b):
     """ids of the build-dir-io cells (c06lib) whose file names occur in words that only one of the two contents has"""
     import re
@@ -434,6 +505,8 @@ def explore_and_reduce(job):
     t0 = time.time()
     if job.get('machine_files'):
         return explore_machine_files(job)
+    if job.get('revisions'):
+        return explore_revisions(job)
     res = explore(job)
     res['wall'] = time.time() - t0
     if 'lang' in job and res['viol'] and not job.get('single'):
@@ -466,6 +539,8 @@ def main():
                'placement': d.get('placement', 'sibling'), 'matrix': d.get('matrix', True), 'owned': d.get('owned'), 'disk': d.get('disk', False)}
         if d.get('machine_files'):
             job.update(machine_files=True, kinds=d.get('kinds', MF_KINDS))
+        if d.get('revisions'):
+            job.update(revisions=True, lang=d['lang'], which=d['which'], histories=d['histories'])
         r = explore_and_reduce(dict(job, single=True))
         for k, w, _ in r['viol']:
             print(k, w)
@@ -474,7 +549,7 @@ def main():
     stale_tmp_cleanup()
     jobs = []
     jobs.append({'name': 'rich', 'files': RICH, 'seeds': seeds, 'full': ck.thorough})
-    jobs.append({'name': 'rich-unity-flat', 'files': RICH, 'seeds': seeds, 'setup_args': ('--unity=on', '--layout=flat'), 'full': ck.thorough})
+    jobs.append({'name': 'rich-unity-flat', 'files': RICH, 'seeds': seeds, 'setup_args': ('--unity=on', '--layout=flat', '-Dlicensedir=share/licenses'), 'full': ck.thorough})   # (licensedir: a dependency manifest is generated)
     jobs.append({'name': 'nolang', 'files': NOLANG, 'seeds': seeds, 'full': True})
     jobs.append({'name': 'wraps', 'files': c6.WRAPS_PROJECT, 'seeds': seeds, 'full': True})
     specs = list(pg.enumerate_specs(3))
@@ -507,15 +582,34 @@ def main():
         for pl in placements:
             pjobs.append({'name': '%s@%s' % (nm, pl), 'files': files, 'seeds': seeds, 'placement': pl, 'matrix': False, 'disk': True, 'full': ck.thorough})
     mjobs = [{'name': 'nolang+machine-file', 'files': NOLANG, 'seeds': seeds, 'machine_files': True, 'matrix': False}]
+    # earlier-revision family: every elementary edit (insert / delete / swap / retype at every position) of the option
+    # declarations, of a subproject's option declarations and of the dependency-lookup / target statements of a project
+    # (language-less; with C targets), as the step from an earlier revision to the present one; thorough: every ordered
+    # pair of such edits as two earlier revisions
+    rjobs = []
+    for lang in (None, 'c'):
+        for which in c6.REV_LISTS:
+            if lang and which != 'statements' and not ck.thorough:
+                continue            # (quick tier: the option lists are edited in the language-less project only)
+            edits = c6.rev_edits(lang, which)
+            hists = [[e] for e in edits]
+            if ck.thorough and not lang:
+                hists += [[e1, e2] for e1 in edits for e2 in edits]
+            n = 5 if lang else (10 if not ck.thorough else 12)
+            for i in range(0, len(hists), n):
+                rjobs.append({'name': 'rev%s:%s' % ('-' + lang if lang else '', which), 'lang': lang, 'which': which, 'histories': hists[i:i + n],
+                              'seeds': seeds, 'revisions': True, 'matrix': False})
+    rtot = {'projects': 0, 'setups': 0, 'histories': 0, 'compared': 0, 'skipped_invalid_earlier_revision': 0, 'order_changing_histories': 0}
+    rkinds = set()
     mtot = {'setups': 0, 'pairs_compared': 0, 'pipe_copies_seen': 0}
-    tot = {'projects': 0, 'skipped': 0, 'setups': 0, 'files': 0, 'comparisons': 0}
+    tot = {'projects': 0, 'skipped': 0, 'setups': 0, 'files': 0, 'comparisons': 0, 'dependency_manifests': 0}
     ptot = {'projects': 0, 'setups': 0, 'comparisons': 0, 'configure_outputs_in_builddir': 0}
     otot = {'compared': 0, 'skipped': 0}
     stot = {'projects_with_source_subdirs': 0, 'stale_dirs_precreated': 0, 'compared': 0, 'skipped_unspecified': 0}
     pseen = set()
     classes = set()
-    # --only matrix,placement,machine (debugging: no evidence is written then)
-    alljobs = (jobs if ck.want('matrix') else []) + (pjobs if ck.want('placement') else []) + (mjobs if ck.want('machine') else [])
+    # --only matrix,placement,machine,revisions (debugging: no evidence is written then)
+    alljobs = (jobs if ck.want('matrix') else []) + (pjobs if ck.want('placement') else []) + (mjobs if ck.want('machine') else []) + (rjobs if ck.want('revisions') else [])
     for i, res in enumerate(pmap(explore_and_reduce, alljobs, jobs=min(NCPU, 16 if not ck.thorough else 8), chunksize=1)):
         job = alljobs[i]
         if os.environ.get('VERIF_C06_TIMES'):
@@ -526,6 +620,18 @@ def main():
             mtot['setups'] += res['setups']
             mtot['pairs_compared'] += res['mf_compared']
             mtot['pipe_copies_seen'] += res['mf_pipe_copies']
+            continue
+        if job.get('revisions'):
+            if res['skip']:
+                ck.internal('earlier-revision project %s: %s' % (res['name'], res['skip']))
+            rtot['projects'] += 1
+            rtot['setups'] += res['setups']
+            rtot['histories'] += res['rev_histories']
+            rtot['compared'] += res['rev_compared']
+            rtot['skipped_invalid_earlier_revision'] += res['rev_skipped']
+            rtot['order_changing_histories'] += res['rev_order_changing']
+            rkinds.update(res['rev_kinds'])
+            classes.add(('revisions:' + job['which'], min(res['files'] // 5, 8)))
             continue
         if res['skip']:
             tot['skipped'] += 1
@@ -538,6 +644,7 @@ def main():
         if job.get('matrix', True):
             tot['files'] += res['files']
             tot['comparisons'] += res['compared']
+            tot['dependency_manifests'] += res['depmf']
             classes.add((res['name'].split(':')[0], min(res['files'] // 5, 8)))
         else:
             ptot['comparisons'] += res['place_compared']
@@ -559,21 +666,28 @@ def main():
             outside_dev=not disk_base().startswith('/dev/'), **ptot)
     ck.part('history-stale-dirs', **stot)
     ck.part('machine-file-forms', kinds=len(MF_KINDS), forms=len(MF_FORMS), **mtot)
+    ck.part('history-earlier-revision', lists=len(c6.REV_LISTS), edit_kinds=4, declaration_kind_x_edit_cells=len(rkinds), **rtot)
+    ck.require(not ck.want('revisions') or rtot['compared'] >= 30 and rtot['order_changing_histories'] >= 15 and rtot['skipped_invalid_earlier_revision'] == 0
+               and {'option-insert', 'option-swap', 'option-retype', 'option-delete', 'subproject-option-insert', 'dependency-insert', 'dependency-swap', 'target-insert'} <= rkinds,
+               'earlier-revision family did not run in full')
     ck.require(not ck.want('machine') or mtot['pairs_compared'] == len(MF_KINDS) * len(MF_FORMS) and mtot['pipe_copies_seen'] >= 2 * len(MF_KINDS), 'machine-file family did not run (no pipe was copied)')
     ck.require(not ck.want('matrix') or tot['projects'] >= 5 and tot['comparisons'] > 100, 'too few projects')
+    ck.require(not ck.want('matrix') or tot['dependency_manifests'] >= 1, 'no project generated a dependency manifest (depmf.json)')
     ck.require(not ck.want('placement') or len(pseen) == len(placements) and ptot['comparisons'] >= 5 * len(placements) * 3 and ptot['configure_outputs_in_builddir'] >= len(placements) * 2 * len(c6.cells()),
                'build-directory placement family did not run in full')
     ck.require(not disk_base().startswith('/dev/'), 'the placement family must live outside /dev (meson ignores paths that start with /dev/)')
     ck.require(not ck.want('matrix') or stot['compared'] >= 5, 'stale-directory history compared for too few projects')
     ck.assume('hash-seed independence is decided for the listed seeds only (the seed space cannot be enumerated)')
-    ck.assume('mtime/inode stability is required of configure_file outputs and generated .pc files; build.ninja and meson-info/* are only required to keep their content')
+    ck.assume('mtime/inode stability is required of configure_file outputs, generated .pc files and the dependency manifest; build.ninja and meson-info/* are only required to keep their content')
     ck.assume('generated text legitimately depends on where the build directory lies (relative paths): every comparison is between configurations at the same absolute source and build paths')
-    ck.finish(evaluations=tot['setups'] + ptot['setups'] + mtot['setups'], distinct_nontrivial=len(classes),
+    ck.finish(evaluations=tot['setups'] + ptot['setups'] + mtot['setups'] + rtot['setups'], distinct_nontrivial=len(classes),
               rule='per project the full product of %d hash seeds x 3 environ orders x 3 directory-listing orders of fresh setups at identical paths (quick tier: full product for the language-less project, one dimension at a time for the others), plus cross-seed reconfigure and no-op reconfigure histories '
                    'and a fresh build directory that already holds the (empty) directories an earlier configuration would have left; '
                    'projects: two hand-written rich projects (pkgconfig, configure_file, install rules, tests, subprojects, options), a language-less one, projgen shapes and corpus projects. '
                    'Build-directory placement family: %d placements (sibling of the sources, nested in them, nested two levels; thorough: also elsewhere at another depth) x 2 ways of naming the directories (absolute; relative from the source root / from inside the build dir) '
                    'x {fresh, reconfigured under another seed, reconfigured again, wiped}, for a project holding the full grid of %d (writer x reader x order) ways in which configuration creates a file in the build directory and names it again (with and without a C target) and the language-less project, run outside /dev. '
+                   'Earlier-revision family: a build directory configured from an earlier revision of the project - every insert / delete / swap / retype at every position of the option declarations (3), of a subproject\'s option declarations (2) and of the dependency-lookup (3) and target (2) statements '
+                   '(thorough: every ordered pair of edits as two earlier revisions) - then reconfigured from the present revision, against a fresh configuration at the same paths. '
                    'distinct_nontrivial = distinct (project family or placement, number-of-generated-files bucket)' % (len(seeds), len(placements), len(c6.cells())),
               exhaustive=True)
 
